@@ -64,6 +64,8 @@ CONSTRAINTS = [
     ('Transaction_warning_threshold_must_be_between', lambda c: 1 <= c['TxWarningThreshold'] <= 99),
     ('Transaction_critical_threshold_must_be_between_warning_threshold_and',
      lambda c: c['TxWarningThreshold'] < c['TxCriticalThreshold'] <= 99),
+    # (repair of KF-C20-utf8) the manifest is JSON: a path that is not valid UTF-8 could not be stored faithfully
+    ('directory_paths_must_be_valid_UTF', lambda c: go_valid_utf8(c['WALDir']) and go_valid_utf8(c['SSTDir'])),
 ]
 
 
